@@ -18,6 +18,14 @@
 (* rkid_swap exchanges the key ids of two receiver-specific MAC entries.   *)
 (* The driver emits such an alteration only if it changes the bytes        *)
 (* (n = 0 otherwise: nothing to judge).                                    *)
+(* Second strengthening round: the plugins listed in cfg.eps2 own a second  *)
+(* endpoint (entity id p + 10, CryptoAbs.Ep2).  At the endpoint levels the  *)
+(* q / d / r / members of `to` of a line are entity ids; a Decode line is   *)
+(* the outcome for ONE entity (at submessage level: whether the endpoint of *)
+(* that entity is among the local endpoints the submessage is released to). *)
+(* The clauses are unchanged: with origin authentication an entity for      *)
+(* which the bytes carry no receiver-specific MAC gets no data, whatever    *)
+(* its sibling endpoint obtains from the same bytes.                        *)
 (* Known deviation S10 (DATA padding makes unaligned protected payloads    *)
 (* undecodable) is reported as KNOWN only if KNOWN_S10=1, else as VIOL.    *)
 (***************************************************************************)
@@ -26,8 +34,8 @@ EXTENDS CryptoAbs, TLC, Json, IOUtils
 Rec == ndJsonDeserialize(IOEnv.TRACE)
 KnownS10 == "KNOWN_S10" \in DOMAIN IOEnv /\ IOEnv.KNOWN_S10 = "1"
 
-VARIABLES l, run, cfg, senders, local, mpart, mep, dk, ct, viol, known
-tvars == <<l, run, cfg, senders, local, mpart, mep, dk, ct, viol, known>>
+VARIABLES l, run, cfg, senders, eps2, local, mpart, mep, dk, ct, viol, known
+tvars == <<l, run, cfg, senders, eps2, local, mpart, mep, dk, ct, viol, known>>
 
 ToSet(s) == {s[i] : i \in DOMAIN s}
 Put(f, k, v) == [x \in DOMAIN f \cup {k} |-> IF x = k THEN v ELSE f[x]]
@@ -36,12 +44,15 @@ Get(f, k) == IF k \in DOMAIN f THEN f[k] ELSE 0
 NoCfg == [lvl |-> "msg", kind |-> "gmac", oa |-> FALSE, k256 |-> FALSE, dir |-> "w2r", other |-> "same"]
 
 TraceInit ==
-  /\ l = 1 /\ run = 0 /\ cfg = NoCfg /\ senders = {}
+  /\ l = 1 /\ run = 0 /\ cfg = NoCfg /\ senders = {} /\ eps2 = {}
   /\ local = {} /\ mpart = {} /\ mep = {} /\ dk = <<>> /\ ct = <<>>
   /\ viol = {} /\ known = {}
 
 Receivers == P \ senders
 IsPair(p, q) == (p \in senders /\ q \in Receivers) \/ (q \in senders /\ p \in Receivers)
+\* endpoint level: receiving entities = the receivers' first endpoints and the second endpoints of those in eps2
+RecvEnts == Receivers \cup {Ep2(r) : r \in eps2 \cap Receivers}
+IsEPair(p, q) == (p \in senders /\ q \in RecvEnts) \/ (q \in senders /\ p \in RecvEnts)
 MatchedAtLevel(p, q) == IF IsMsg(cfg) THEN <<p, q>> \in mpart ELSE <<p, q>> \in mep
 TokenLevel == IF IsMsg(cfg) THEN "part" ELSE "ep"
 
@@ -76,32 +87,33 @@ Step ==
             /\ run' = e.run
             /\ cfg' = [lvl |-> e.cfg.lvl, kind |-> e.cfg.kind, oa |-> e.cfg.oa, k256 |-> e.cfg.k256, dir |-> e.cfg.dir, other |-> e.cfg.other]
             /\ senders' = ToSet(e.cfg.senders)
+            /\ eps2' = IF "eps2" \in DOMAIN e.cfg THEN ToSet(e.cfg.eps2) ELSE {}
             /\ local' = {} /\ mpart' = {} /\ mep' = {} /\ dk' = <<>> /\ ct' = <<>> /\ viol' = {} /\ known' = {}
        [] e.ev = "RegLocal" ->
             /\ local' = local \cup {e.p}
-            /\ UNCHANGED <<run, cfg, senders, mpart, mep, dk, ct, viol, known>>
+            /\ UNCHANGED <<run, cfg, senders, eps2, mpart, mep, dk, ct, viol, known>>
        [] e.ev = "MatchPart" ->
             /\ mpart' = IF IsPair(e.p, e.q) /\ e.p \in local THEN mpart \cup {<<e.p, e.q>>} ELSE mpart
-            /\ UNCHANGED <<run, cfg, senders, local, mep, dk, ct, viol, known>>
+            /\ UNCHANGED <<run, cfg, senders, eps2, local, mep, dk, ct, viol, known>>
        [] e.ev = "MatchEp" ->
-            /\ mep' = IF <<e.p, e.q>> \in mpart THEN mep \cup {<<e.p, e.q>>} ELSE mep
-            /\ UNCHANGED <<run, cfg, senders, local, mpart, dk, ct, viol, known>>
+            /\ mep' = IF IsEPair(e.p, e.q) /\ <<PluginOf(e.p), PluginOf(e.q)>> \in mpart THEN mep \cup {<<e.p, e.q>>} ELSE mep
+            /\ UNCHANGED <<run, cfg, senders, eps2, local, mpart, dk, ct, viol, known>>
        [] e.ev = "Tokens" ->
             /\ dk' = IF /\ e.t = TokenLevel
                         /\ MatchedAtLevel(e.p, e.q) /\ MatchedAtLevel(e.d, e.p)
                         /\ Get(dk, <<e.d, e.p>>) = 0
                      THEN Put(dk, <<e.d, e.p>>, e.q) ELSE dk
-            /\ UNCHANGED <<run, cfg, senders, local, mpart, mep, ct, viol, known>>
+            /\ UNCHANGED <<run, cfg, senders, eps2, local, mpart, mep, ct, viol, known>>
        [] e.ev = "Encode" ->
             /\ ct' = IF e.ok THEN Put(ct, e.c, [p |-> e.p, to |-> ToSet(e.to), frame |-> e.frame, al |-> e.al, enc_len |-> e.enc_len])
                      ELSE ct
-            /\ UNCHANGED <<run, cfg, senders, local, mpart, mep, dk, viol, known>>
+            /\ UNCHANGED <<run, cfg, senders, eps2, local, mpart, mep, dk, viol, known>>
        [] e.ev = "Decode" ->
             /\ e.c \in DOMAIN ct /\ e.t \in AllT
             /\ e.same + e.other + e.nodata + e.panic = e.n
             /\ LET r == DecodeClauses(e) IN viol' = viol \cup r.v /\ known' = known \cup r.k
-            /\ UNCHANGED <<run, cfg, senders, local, mpart, mep, dk, ct>>
-       [] e.ev = "Skip" -> UNCHANGED <<run, cfg, senders, local, mpart, mep, dk, ct, viol, known>>
+            /\ UNCHANGED <<run, cfg, senders, eps2, local, mpart, mep, dk, ct>>
+       [] e.ev = "Skip" -> UNCHANGED <<run, cfg, senders, eps2, local, mpart, mep, dk, ct, viol, known>>
   /\ (viol' # viol /\ viol' # {}) =>
         PrintT("VIOL line=" \o ToString(l) \o " run=" \o ToString(run') \o " clauses=" \o ToString(viol' \ viol))
   /\ (known' # known /\ known' # {}) =>
